@@ -1,0 +1,89 @@
+//go:build verif
+
+// Contracts for the deductive verifier in /verif (govc). Comment-only: this file adds no code.
+package database
+
+// ---- C16: every table once, after the tables it references
+
+// The depth of a table is larger than the depth of every table one of its columns references, whenever the table is
+// reported complete (all its references were complete already). Columns are spoken of through the enumeration
+// iterkey(AttrDefs, j), j < len(AttrDefs), which the collection loop is proved to follow.
+//@ spec refKey(t *sysl.Type) string = t.GetTypeRef().GetRef().Path[0] + "." + t.GetTypeRef().GetRef().Path[1]
+//@ spec col(table *sysl.Type, j int) *sysl.Type = table.GetRelation().AttrDefs[iterkey(table.GetRelation().AttrDefs, j)]
+//@ func findTableDepth
+//@   pure
+//@   requires visitedTableAttrs != nil && completeTableDepthMap != nil
+//@   ensures [complete-means-all-references-complete] result0 && table.GetRelation() != nil ==> forall(j, 0, len(table.GetRelation().AttrDefs), col(table, j).GetTypeRef() != nil ==> in(refKey(col(table, j)), visitedTableAttrs))
+//@   ensures [deeper-than-every-referenced-table] result0 && table.GetRelation() != nil ==> forall(j, 0, len(table.GetRelation().AttrDefs), col(table, j).GetTypeRef() != nil ==> result1 >= completeTableDepthMap[col(table, j).GetTypeRef().GetRef().Path[0]] + 1)
+//@   ensures [depth-not-negative] result1 >= 0
+//@   loop 0 invariant [every-column-name-collected] len(attrNames) == rangeindex + 1 && forall(j, 0, rangeindex + 1, attrNames[j] == iterkey(relEntity.AttrDefs, j))
+//@   loop 0 invariant [own-array] base(attrNames) == 0 || fresh(attrNames)
+//@   loop 1 invariant [names-are-the-enumeration] len(attrNames) == len(relEntity.AttrDefs) && forall(j, 0, len(attrNames), attrNames[j] == iterkey(relEntity.AttrDefs, j))
+//@   loop 1 invariant [deeper-so-far] tableDepth >= 0 && rangeindex + 1 <= len(attrNames) && (allAttrProcessed ==> forall(j, 0, rangeindex + 1, col(table, j).GetTypeRef() != nil ==> tableDepth >= completeTableDepthMap[col(table, j).GetTypeRef().GetRef().Path[0]] + 1))
+//@   loop 1 invariant [references-complete-so-far] allAttrProcessed ==> forall(j, 0, rangeindex + 1, col(table, j).GetTypeRef() != nil ==> in(refKey(col(table, j)), visitedTableAttrs))
+
+// One pass: a table moves from the incomplete set to exactly one depth list, under a key that is new in the
+// name->depth map; the recursion ends because every further pass follows a pass that removed at least one table from
+// the incomplete set (measure: the size of the incomplete set).
+//@ func processTableDepth
+//@   requires tableMap != nil && completedTableDepthMap != nil && completeTableDepthMap != nil && incompleteTableDepthMap != nil && visitedTableAttrs != nil
+//@   requires [maps-distinct] completeTableDepthMap != incompleteTableDepthMap && visitedTableAttrs != incompleteTableDepthMap && visitedTableAttrs != completeTableDepthMap
+//@   requires [disjoint] forallstr(k, in(k, incompleteTableDepthMap) ==> !in(k, completeTableDepthMap))
+//@   decreases len(incompleteTableDepthMap)
+//@   structure terminates
+//@   assert @mapupdate:map[string]int [table-completed-once] maptarget == completeTableDepthMap ==> !in(mapkey, maptarget) && in(mapkey, incompleteTableDepthMap)
+//@   loop 0 invariant [still-disjoint] forallstr(k, in(k, incompleteTableDepthMap) ==> !in(k, completeTableDepthMap))
+//@   loop 0 invariant [progress-shrinks-the-set] len(incompleteTableDepthMap) <= old(len(incompleteTableDepthMap)) && (progressed ==> len(incompleteTableDepthMap) < old(len(incompleteTableDepthMap)))
+//@   loop 1 invariant [name-maps-untouched] len(incompleteTableDepthMap) == pre(len(incompleteTableDepthMap)) && forallstr(k, in(k, incompleteTableDepthMap) == pre(in(k, incompleteTableDepthMap))) && forallstr(k, in(k, completeTableDepthMap) == pre(in(k, completeTableDepthMap)))
+//@   loop 2 invariant [still-disjoint] forallstr(k, in(k, incompleteTableDepthMap) ==> !in(k, completeTableDepthMap))
+
+// Classification for delta scripts: a table of the new model is RETAIN iff the old model has it, else ADD, and carries
+// its own new (and old) definition.
+//@ func findAddedDeletedRetainedTables
+//@   requires tableMapOld != tableMapNew || true
+//@   assert @call:database.MakeTableDetails [retain-iff-in-old-model] arg3 == tableName && arg0 == tableMapNew[tableName] && ((arg2 == "RETAIN") == in(tableName, tableMapOld)) && (arg2 == "RETAIN" || arg2 == "ADD") && (arg2 == "RETAIN" ==> arg1 == tableMapOld[tableName]) && (arg2 == "ADD" ==> arg1 == nil)
+
+// The creation script walks the depths in ascending order and writes every table of a depth, ordered by
+// (line, name): the list written is a rearrangement of the depth's table list.
+//@ func (*ScriptView).GenerateDatabaseScriptCreate
+//@   requires v != nil && v.stringBuilder != nil
+//@   assert @call:database.(*ScriptView).writeCreateSQLForATable [table-belongs-to-this-depth] exists(k, 0, len(tableNames), tableNames[k] == arg1)
+//@   loop 2 invariant [every-name-is-a-table-of-this-depth] forall(i, 0, len(entityNames), exists(k, 0, len(tableNames), tableNames[k] == entityNames[i]))
+//@   loop 2 invariant [every-table-of-this-depth-is-listed] len(entityNames) == len(tableNames) && forall(k, 0, len(tableNames), exists(i, 0, len(entityNames), tableNames[k] == entityNames[i]))
+//@   loop 1 invariant [depths-ascending] forall(a, 0, len(depthsFound), forall(b, a, len(depthsFound), depthsFound[a] <= depthsFound[b]))
+
+// The table writer touches only the script under construction and the column-type memo.
+//@ func (*ScriptView).writeCreateSQLForATable
+//@   requires v != nil && v.stringBuilder != nil && visitedAttributes != nil
+//@   modifies reach(v.stringBuilder), mapof(visitedAttributes)
+//@   perwrite
+//@   loop 0 invariant [own-array] (base(attrNames) == 0 || fresh(attrNames)) && base(primaryKeys) == 0 && base(foreignKeyConstraints) == 0
+//@   loop 1 invariant [own-arrays] (base(primaryKeys) == 0 || fresh(primaryKeys)) && (base(foreignKeyConstraints) == 0 || fresh(foreignKeyConstraints)) && (base(attrNames) == 0 || fresh(attrNames))
+//@ func (*ScriptView).writeCreateSQLForAColumn
+//@   requires v != nil && visitedAttributes != nil && primaryKeys != nil && foreignKeyConstraints != nil
+//@   modifies *primaryKeys, elems(*primaryKeys), *foreignKeyConstraints, elems(*foreignKeyConstraints), mapof(visitedAttributes)
+//@   perwrite
+//@   ensures [lists-stay-in-own-arrays] (base(*primaryKeys) == old(base(*primaryKeys)) || fresh(*primaryKeys)) && (base(*foreignKeyConstraints) == old(base(*foreignKeyConstraints)) || fresh(*foreignKeyConstraints))
+//@ func (*ScriptView).addConstraints
+//@   pure
+//@ func (*ScriptView).getPrimaryKeyString
+//@   pure
+//@ func (*ScriptView).getPostgresDataTypes
+//@   pure
+//@ func isAutoIncrementAndPrimaryKey
+//@   pure
+
+// Delta of one retained table: every column of the old version that the new version lacks gets a DROP COLUMN
+// statement, every column of the new version is either created (absent before) or compared with its old definition.
+//@ func (*ScriptView).writeModifySQLForATable
+//@   requires v != nil && v.stringBuilder != nil && entityNew != nil && entityOld != nil && visitedAttributes != nil
+//@   ghostclear @iter:0 handled
+//@   ghostset @call:fmt.Sprintf handled
+//@   loop 0 step [removed-column-is-dropped] attrTypeNew == nil ==> ghost("handled")
+//@   ghostclear @iter:1 created
+//@   ghostclear @iter:1 compared
+//@   ghostset @call:database.(*ScriptView).writeCreateSQLForAColumn created
+//@   ghostset @call:database.(*ScriptView).writeModifySQLForAColumn compared
+//@   assert @call:database.(*ScriptView).writeCreateSQLForAColumn [creates-the-new-definition] arg1 == entityNew.AttrDefs[attrNameNew] && arg2 == tableName && arg3 == attrNameNew && entityOld.AttrDefs[attrNameNew] == nil
+//@   assert @call:database.(*ScriptView).writeModifySQLForAColumn [compares-old-with-new] arg1 == entityOld.AttrDefs[attrNameNew] && arg2 == entityNew.AttrDefs[attrNameNew] && arg3 == tableName && arg4 == attrNameNew && arg1 != nil
+//@   loop 1 step [new-column-created-or-compared] (attrTypeOld == nil ==> ghost("created")) && (attrTypeOld != nil ==> ghost("compared"))
